@@ -176,6 +176,12 @@ TW('C02', 'twin-rename-and-reorder', DS, "    w = (1.0 - beta1) if moving_averag
    "    mom_weight = 1.0 if not moving_average_for_momentum else (1.0 - beta1)\n    w = mom_weight\n\n    shampoo_update_with_wd_momentum = (\n        w * shampoo_update_with_wd + beta1 * state.momentum.to_float())")
 TW('C02', 'twin-multiplier-inline', DS, "    shampoo_update = precond_grad * multiplier\n", "    shampoo_update = multiplier * precond_grad\n")
 
+M(['C04', 'C02'], 'dispatcher-quantized-scheduled-inverted', DS, "       quantized_bucket_sizes_flat, metrics_flat) = lax.cond(\n           steps == 1,", "       quantized_bucket_sizes_flat, metrics_flat) = lax.cond(\n           steps != 1,")
+M(['C04', 'C02'], 'dispatcher-scheduled-every-step-at-two', DS, "      preconditioners_flat, metrics_flat = lax.cond(\n          steps == 1,", "      preconditioners_flat, metrics_flat = lax.cond(\n          steps == 2,")
+M(['C04', 'C02'], 'dispatcher-unscheduled-inverted', DS, "      if steps == 1:\n        preconditioners_flat, metrics_flat = update_preconditioners_every_fn()", "      if steps != 1:\n        preconditioners_flat, metrics_flat = update_preconditioners_every_fn()")
+M(['C04', 'C02'], 'sharded-dispatch-functions-swapped', DS, "    (new_preconditioners, metrics, _, _) = _update_preconditioners_fn(\n        _internal_inverse_pth_root_all,\n        _update_preconditioners,", "    (new_preconditioners, metrics, _, _) = _update_preconditioners_fn(\n        _update_preconditioners,\n        _internal_inverse_pth_root_all,")
+TW(['C04', 'C02'], 'twin-dispatcher-mirrored', DS, "      preconditioners_flat, metrics_flat = lax.cond(\n          steps == 1,", "      preconditioners_flat, metrics_flat = lax.cond(\n          1 == steps,")
+
 # ------------------------------------------------------------------ C05
 M(['C05', 'C02'], 'graft-norm-from-grad', DS, "    grafting_update_norm = jnp.linalg.norm(grafting_update)", "    grafting_update_norm = jnp.linalg.norm(grad)")
 M(['C05', 'C02'], 'graft-norm-squared', DS, "      multiplier = (grafting_update_norm / (precond_grad_norm + _EPSILON))", "      multiplier = (grafting_update_norm / (precond_grad_norm**2 + _EPSILON))")
@@ -337,6 +343,12 @@ M('C10', 'lowroot-neg-no-roll', DS, "    inv_e = jnp.roll(inv_e, -(d - padding_s
 M('C10', 'lowroot-avg-over-padded', DS, "  num_real_eigs_to_avg = real_dim - abs(compression_rank)", "  num_real_eigs_to_avg = d - abs(compression_rank)")
 M('C10', 'lowroot-keep-split', DS, "  keep_e, to_avg_e = inv_e[:split_ix], inv_e[split_ix:]", "  keep_e, to_avg_e = inv_e[:split_ix], inv_e[split_ix + 1:]")
 TW('C10', 'twin-unpack-positive-col', DS, "  const = preconditioner[0, -1]\n", "  const = preconditioner[0, r + 1]\n")
+
+M(['C10', 'C09'], 'fd-statistics-predicate-args-swapped', DS, "          if _should_compress(self._compression_rank, g.shape[axis]):", "          if _should_compress(g.shape[axis], self._compression_rank):")
+M('C10', 'preconditioner-shape-predicate-args-swapped', DS, "      return [dim, _precond_dim(self._compression_rank, dim)]", "      return [dim, _precond_dim(dim, self._compression_rank)]")
+TW('C10', 'twin-predicate-abs-rank-local', DS, "          if _should_compress(self._compression_rank, g.shape[axis]):", "          if _should_compress(abs(self._compression_rank), g.shape[axis]):")
+M('C06', 'partitioner-announced-sizes-count', DS, "        sizes = np.ones(nsplit + 1, dtype=np.int32) * block_size\n", "        sizes = np.ones(nsplit + 2, dtype=np.int32) * block_size\n")
+M('C06', 'partitioner-announced-sizes-value', DS, "        sizes = np.ones(nsplit + 1, dtype=np.int32) * block_size\n", "        sizes = np.ones(nsplit + 1, dtype=np.int32) + block_size\n")
 
 # ------------------------------------------------------------------ C11
 M('C11', 'int8-128-buckets', QU, "      num_buckets = jnp.array(127.0, dtype=float_dtype)", "      num_buckets = jnp.array(128.0, dtype=float_dtype)")
